@@ -291,14 +291,6 @@ Section Values.
     match o with EoNone => VNone | EoEmpty => empty_dict | EoPad p => ext_dict p end.
   Definition ext_pad (o : ext_opt) : nat := match o with EoPad p => p | _ => 2%nat end.
 
-  (* TRANSLATOR LIMIT: `pchip(t)` calls the LOCAL callable `pchip`, but the translator emits a call of a primitive
-     NAMED "pchip" that does not receive the variable. The row for "pchip" therefore cannot see which knots / which
-     constructor built the interpolator: it is bound here to [kmeth], [kL], [kM] = the method and the knots the
-     callable was built from, and the theorem instantiates them with interp_method and the padded extrema of the
-     call. (For 'splrep' the knots do flow through the program: f = splrep(locs, pks); splev(t, f).) *)
-  Variable kmeth : imeth.
-  Variables kL kM : list Z.
-
   Definition ie_table : list (string * handler V) :=
     [ ("bool", fun args kw => match args, kw with
                               | [VOpaque t []], [] => if String.eqb t "{}" then Ok (VBool false) else Bad
@@ -362,10 +354,14 @@ Section Values.
       ("interp.pchip", fun args kw => match args, kw with
                                       | [VSig (XZ L); VSig (XZ M)], [] => Ok (VOpaque "pchip" [vz L; vz M])
                                       | _, _ => Bad end);
-      (* see TRANSLATOR LIMIT above *)
-      ("pchip", fun args kw => match args, kw with
-                               | [VSig (XZ t)], [] => Ok (va (map (interp_of kmeth kL kM) t))
-                               | _, _ => Bad end);
+      (* N16: `pchip(t)` receives the LOCAL callable `pchip`: the interpolant evaluated is the one BUILT from
+         (locs, pks) by interp.PchipInterpolator ('mono_pchip') or interp.pchip ('pchip') *)
+      ("pchip(t)", fun args kw => match args, kw with
+                                  | [VOpaque tg [VSig (XZ L); VSig (XZ M)]; VSig (XZ t)], [] =>
+                                      if String.eqb tg "PchipInterpolator" then Ok (va (map (interp_of MonoPchip L M) t))
+                                      else if String.eqb tg "pchip" then Ok (va (map (interp_of Pchip L M) t))
+                                      else Bad
+                                  | _, _ => Bad end);
       (* t_max >= 0 ; t_max < X.shape[0] : elementwise *)
       (">=", fun args kw => match args, kw with
                             | [VSig (XZ t); VNat n], [] => Ok (vb (map (fun v => Z.of_nat n <=? v)%Z t))
@@ -410,8 +406,4 @@ Section Values.
     | Return (VList [VSig (XA e); _]) => if re then Some e else None
     | _ => None
     end.
-
-  (* the knots the local callable `pchip` closes over, for the call with these inputs *)
-  Definition knots (x : list Z) (p : nat) (m : emode) : list Z * list Z :=
-    match get_padded_extrema x p m with Padded L M => (L, M) | _ => ([], []) end.
 End Values.
